@@ -237,9 +237,13 @@ impl Quantity {
                 })
             };
 
-            let converted = Quantity::from_unit(group_as_unit)
-                .convert_to(&target_unit)
-                .unwrap();
+            // The exponent computed above is only a guess (it looks at the first
+            // base-unit factor of each unit). If the group can not be converted to
+            // the guessed target, e.g. for 'gallon * mpg', leave the quantity as it is
+            // instead of panicking.
+            let Ok(converted) = Quantity::from_unit(group_as_unit).convert_to(&target_unit) else {
+                return self.clone();
+            };
 
             simplified_unit = simplified_unit * target_unit;
             factor = factor * converted.value;
